@@ -329,6 +329,10 @@ def _transform(dst, how):
                 new = forelse_to_flags(src)
             elif how == 'swapassign':
                 new = swap_independent_assignments(src)
+            elif how == 'hoistconsts':
+                new = hoist_constants(src)
+            elif how == 'dictcomps':
+                new = dict_literals_to_comprehensions(src)
             elif how == 'tablestmts':
                 new = tables_by_statements(src)
             elif how == 'renameparams':
@@ -1522,6 +1526,130 @@ def tables_by_statements(src):
     return ast.unparse(ast.fix_missing_locations(tree)) + '\n'
 
 
+def hoist_constants(src):
+    """Literals of function bodies - integers from 2 up, and texts of two or
+    more characters - that occur at least twice in the module become private
+    module-level constants (`_K1 = 26`), defined before anything else runs."""
+    import ast
+    tree = ast.parse(src)
+    skip = set()
+    for n in ast.walk(tree):
+        if isinstance(n, ast.JoinedStr):
+            skip |= {id(x) for x in ast.walk(n)}
+        elif isinstance(n, (ast.FunctionDef, ast.AsyncFunctionDef,
+                            ast.ClassDef, ast.Module)) and n.body and \
+                isinstance(n.body[0], ast.Expr) and isinstance(
+                n.body[0].value, ast.Constant):
+            skip.add(id(n.body[0].value))
+        elif isinstance(n, (ast.FunctionDef, ast.AsyncFunctionDef)):
+            for d in n.decorator_list + n.args.defaults + [
+                    x for x in n.args.kw_defaults if x is not None]:
+                skip |= {id(x) for x in ast.walk(d)}
+        elif isinstance(n, ast.Assign) and any(
+                isinstance(t, ast.Name) and t.id == '__slots__'
+                for t in n.targets):
+            skip |= {id(x) for x in ast.walk(n)}
+
+    def wanted(c):
+        v = c.value
+        if isinstance(v, bool) or id(c) in skip:
+            return False
+        if isinstance(v, int):
+            return v >= 2
+        return isinstance(v, str) and len(v) >= 2
+
+    count = {}
+    for fn in ast.walk(tree):
+        if isinstance(fn, (ast.FunctionDef, ast.AsyncFunctionDef)):
+            for st in fn.body:
+                for c in ast.walk(st):
+                    if isinstance(c, ast.Constant) and wanted(c):
+                        k = (type(c.value).__name__, c.value)
+                        count[k] = count.get(k, 0) + 1
+    used = {n.id for n in ast.walk(tree) if isinstance(n, ast.Name)}
+    names, i = {}, 0
+    for k in sorted(k for k, n_ in count.items() if n_ >= 2):
+        i += 1
+        while '_K%d' % i in used:
+            i += 1
+        names[k] = '_K%d' % i
+    if not names:
+        return src
+
+    class T(ast.NodeTransformer):
+        def __init__(self):
+            self.depth = 0
+
+        def visit_FunctionDef(self, n):
+            self.depth += 1
+            n.body = [self.visit(st) for st in n.body]
+            self.depth -= 1
+            return n
+
+        visit_AsyncFunctionDef = visit_FunctionDef
+
+        def visit_Constant(self, c):
+            if self.depth and wanted(c):
+                k = (type(c.value).__name__, c.value)
+                if k in names:
+                    return ast.copy_location(
+                        ast.Name(id=names[k], ctx=ast.Load()), c)
+            return c
+
+        def visit_JoinedStr(self, n):
+            return n
+
+    tree = T().visit(tree)
+    pos = 0
+    body = tree.body
+    if body and isinstance(body[0], ast.Expr) and isinstance(
+            body[0].value, ast.Constant):
+        pos = 1
+    while pos < len(body) and isinstance(body[pos], ast.ImportFrom) and \
+            body[pos].module == '__future__':
+        pos += 1
+    defs = [ast.Assign(targets=[ast.Name(id=nm, ctx=ast.Store())],
+                       value=ast.Constant(value=k[1]))
+            for k, nm in sorted(names.items(), key=lambda kv: kv[1])]
+    body[pos:pos] = defs
+    return ast.unparse(ast.fix_missing_locations(tree)) + '\n'
+
+
+def dict_literals_to_comprehensions(src):
+    """`{'a': s['a'], 'b': s['b']}` -> `{k: s[k] for k in ('a', 'b')}` (two or
+    more constant keys, every value the same key of one plain name)."""
+    import ast
+    tree = ast.parse(src)
+
+    class T(ast.NodeTransformer):
+        def visit_Dict(self, n):
+            self.generic_visit(n)
+            if len(n.keys) >= 2 and all(
+                    isinstance(k, ast.Constant) and isinstance(k.value, str)
+                    for k in n.keys) and all(
+                    isinstance(v, ast.Subscript) and isinstance(
+                        v.value, ast.Name) and isinstance(
+                        v.slice, ast.Constant) and v.slice.value == k.value
+                    for k, v in zip(n.keys, n.values)) and len(
+                    {v.value.id for v in n.values}) == 1 and \
+                    n.values[0].value.id != 'k_':
+                s_ = n.values[0].value.id
+                return ast.copy_location(ast.DictComp(
+                    key=ast.Name(id='k_', ctx=ast.Load()),
+                    value=ast.Subscript(
+                        value=ast.Name(id=s_, ctx=ast.Load()),
+                        slice=ast.Name(id='k_', ctx=ast.Load()),
+                        ctx=ast.Load()),
+                    generators=[ast.comprehension(
+                        target=ast.Name(id='k_', ctx=ast.Store()),
+                        iter=ast.Tuple(elts=list(n.keys), ctx=ast.Load()),
+                        ifs=[], is_async=0)]), n)
+            return n
+
+    tree = T().visit(tree)
+    return ast.unparse(ast.fix_missing_locations(tree)) + '\n'
+
+
 def swap_independent_assignments(src):
     """Two adjacent assignments of call-free expressions to different plain
     names, neither mentioning the other's target, change places."""
@@ -1690,7 +1818,7 @@ def run_for_property(prop, repo, seed=0, jobs=None):
                 'flags', 'fstrings', 'lambdas', 'dictloops', 'guards',
                 'nestguards', 'nameargs', 'ctorcomps', 'calltables',
                 'ifexpstmt', 'yoda', 'renameparams', 'tablestmts',
-                'swapassign'):
+                'swapassign', 'hoistconsts', 'dictcomps'):
         variants.append({'id': '%s-benign-%s-all' % (prop.lower(), how),
                          'property': prop, 'kind': 'benign', 'edits': [],
                          'transform': how, 'expect': None, 'clears': None,
